@@ -479,3 +479,126 @@ Proof.
         -- injection E as <- <-. eapply leaf_tcp; [exact W| |exact I'|reflexivity]. rewrite H2, <- H1. reflexivity.
       * injection E as E. eapply leaf_start_fail; [|exact I']. apply surjective_pairing_eq. symmetry. exact E.
 Qed.
+
+(* ---- finish_connection ---- *)
+Lemma leaf_finish_fail' c x e c' o0 pre : finish_fail x e = (c', o0) -> Inv c' -> WI c' /\ NC c c' (pre ++ o0).
+Proof.
+  intros E I'. pose proof (finish_fail_cs x e) as Hc. pose proof (finish_fail_obs x e) as [e' Ho]. rewrite E in Hc, Ho. cbn [fst snd] in *.
+  split; [apply WI_closed; assumption|]. apply NC_clr. right. right. left. exists e'. apply in_or_app. right. exact Ho.
+Qed.
+
+Lemma wv_internal_handlers c : wv (internal_handlers c) = wv c.
+Proof. unfold internal_handlers. rewrite !wv_add_handler. reflexivity. Qed.
+
+Lemma wv_internal_handlers_pf c : pc (t_finish (internal_handlers c)) = pc (t_finish c).
+Proof. pose proof (wv_internal_handlers c) as E. unfold wv in E. injection E as E1 E2 E3 E4 E5 E6 E7 E8 E9. exact E5. Qed.
+Lemma wv_internal_handlers_pi c : ping_timer (internal_handlers c) = ping_timer c.
+Proof. pose proof (wv_internal_handlers c) as E. unfold wv in E. injection E as E1 E2 E3 E4 E5 E6 E7 E8 E9. exact E3. Qed.
+Lemma wv_internal_handlers_po c : pong_timer (internal_handlers c) = pong_timer c.
+Proof. pose proof (wv_internal_handlers c) as E. unfold wv in E. injection E as E1 E2 E3 E4 E5 E6 E7 E8 E9. exact E2. Qed.
+
+Lemma leaf_finish_success c x c' o : wv x = wv c -> finish_success x = (c', o) -> Inv c' -> WI c' /\ NC c c' o.
+Proof.
+  intros E Es I'. unfold finish_success in Es.
+  set (c1 := x <| intr_finish := IExited |>) in *.
+  destruct (cs (set_finish_future c1)) eqn:Ecs.
+  5: { pose proof (cleanup_cs (set_finish_future c1)) as Hc. destruct (cleanup (set_finish_future c1)) as [c3 o3]. cbn [fst] in Hc.
+       injection Es as <- <-. split; [apply WI_closed; [exact I'|exact Hc]|].
+       apply NC_clr. right. right. left. eexists. apply in_or_app. right. left. reflexivity. }
+  all: injection Es as <- <-; (split; [|apply NC_open; cbn; discriminate]);
+       (split; [exact I'|]); (split; [|split]); unfold TK, PK, GK; cbn; auto; try (intro Q; discriminate Q).
+Qed.
+
+Lemma leaf_finish_after_ready c x c' o :
+  WI c -> cs c = SockOpen -> cs x = cs c -> transport x = transport c -> ping_timer x = ping_timer c -> pong_timer x = pong_timer c ->
+  finish_after_ready x = (c', o) -> Inv c' -> WI c' /\ NC c c' o.
+Proof.
+  intros W Hso E1 E2 E4 E5 Es I'. destruct W as (I & T & P & G).
+  destruct (PK_not_connected c P ltac:(congruence)) as [Q1 Q2].
+  unfold finish_after_ready in Es. set (c0 := x <| hs_timer := None |>) in *.
+  assert (Ec0 : cs c0 = SockOpen) by (cbn; congruence).
+  rewrite Ec0 in Es.
+  match type of Es with context [call_begin ?a ?b ?d ?e ?f ?g ?h] =>
+    pose proof (S_call_begin a b d e f g h) as HS; destruct (call_begin a b d e f g h) as [[[c2 o2] ex] cid] eqn:Ecb end.
+  cbn [fst snd] in HS.
+  destruct ex as [e|].
+  - match type of Es with context [finish_fail c2 e] => destruct (finish_fail c2 e) as [c3 o3] eqn:Ef end.
+    injection Es as <- <-. eapply leaf_finish_fail'; [exact Ef|exact I'].
+  - injection Es as <- <-. destruct HS as [A1 A2 A3 A4 A5 A6].
+    assert (Epf : running_f (pc (t_finish c2)) = true).
+    { rewrite A2. rewrite wv_internal_handlers_pf. reflexivity. }
+    destruct (cs c2) eqn:Ecs2.
+    5: { split; [apply WI_closed; assumption|]. intros _ _. left. unfold SF. rewrite Epf. apply orb_true_r. }
+    all: (split; [|apply NC_open; congruence]); (split; [exact I'|]); (split; [|split]).
+    all: try (right; left; exact Epf).
+    all: try (intros _; exact Epf).
+    all: intros [Q|Q]; exfalso; apply Q; [apply A4|apply A5]; rewrite ?wv_internal_handlers_pi, ?wv_internal_handlers_po; cbn; congruence.
+Qed.
+
+Lemma wv_fields x c : wv x = wv c ->
+  cs x = cs c /\ transport x = transport c /\ ping_timer x = ping_timer c /\ pong_timer x = pong_timer c /\ pc (t_finish x) = pc (t_finish c) /\ pc (t_start x) = pc (t_start c).
+Proof. unfold wv. intro E. injection E as E1 E2 E3 E4 E5 E6 E7 E8 E9. auto 7. Qed.
+
+Lemma wake_finish_W c c' o : WI c -> wake_finish c = Some (c', o) -> Inv c' -> WI c' /\ NC c c' o.
+Proof.
+  intros W E I'. pose proof W as (I & T & P & G). unfold wake_finish in E. cbn [get_task] in E.
+  destruct (pc (t_finish c)) eqn:Ep; try discriminate.
+  - (* awaiting create_connection *)
+    destruct (must_cancel (t_finish c) || negb match made_waiter c with EPending => true | _ => false end); [|discriminate].
+    pose proof (wv_take_cancel c TFinish) as H1. destruct (take_cancel c TFinish) as [c1 mc]. cbn [fst] in H1.
+    destruct (wv_fields c1 c H1) as (F1 & F2 & F3 & F4 & F5 & F6).
+    assert (Hr : running_f (pc (t_finish c)) = true) by (rewrite Ep; reflexivity).
+    match type of E with match ?d with _ => _ end = _ => destruct d as [|e] end.
+    + set (c2 := c1 <| helper := helper_obj c1 |> <| hs_timer := Some (now c1 + HANDSHAKE_TIMEOUT) |>) in *.
+      destruct (ready c2) eqn:Er.
+      * (* keeps waiting, for the helper now *)
+        injection E as <- <-. cbn [set_task get_task].
+        assert (Hcs : cs (c2 <| t_finish := t_finish c2 <| pc := PF_Ready |> |>) = cs c) by (cbn; exact F1).
+        split.
+        -- destruct (cs c) eqn:Ecs.
+           5: { apply WI_closed; [exact I'|exact Hcs]. }
+           all: split; [exact I'|]; split; [|split]; unfold TK, PK, GK; cbn; rewrite ?F1, ?F2, ?F3, ?F4, ?Ecs; auto; try (intro Q; discriminate Q).
+           all: try (intro Q; destruct (PK_not_connected c P ltac:(congruence)) as [Q1 Q2]; destruct Q as [Q|Q]; contradiction).
+           all: try (intro Q; unfold PK in P; rewrite Ecs in P; apply P; exact Q).
+        -- apply NC_same; [exact Hcs|]. intros _. unfold SF. cbn. apply orb_true_r.
+      * (* the helper is ready already *)
+        destruct (JK_finish_running c I Hr) as [Q|[Q|Q]].
+        -- destruct (finish_after_ready c2) as [c3 o3] eqn:Ef. injection E as <- <-.
+           eapply (leaf_finish_after_ready c c2); [exact W|exact Q| | | | |exact Ef|exact I']; cbn; assumption.
+        -- exfalso. destruct I as (_ & (_ & J2) & _). cbn in J2. rewrite Ep in J2. destruct J2; congruence.
+        -- (* closed meanwhile: finish_after_ready fails *)
+           unfold finish_after_ready in E. cbn [cs set] in E.
+           assert (Hc2 : cs (c2 <| hs_timer := None |>) = Closed) by (cbn; congruence).
+           rewrite Hc2 in E. injection E as E. eapply leaf_finish_fail; [|exact I']. apply surjective_pairing_eq. symmetry. exact E.
+      * injection E as E. eapply leaf_finish_fail; [|exact I']. apply surjective_pairing_eq. symmetry. exact E.
+      * injection E as E. eapply leaf_finish_fail; [|exact I']. apply surjective_pairing_eq. symmetry. exact E.
+    + match type of E with context [finish_fail ?x e] => destruct (finish_fail x e) as [c3 o3] eqn:Ef end.
+      injection E as <- <-. eapply leaf_finish_fail'; [exact Ef|exact I'].
+  - (* awaiting the helper *)
+    destruct (must_cancel (t_finish c) || negb match ready c with RPending => true | _ => false end); [|discriminate].
+    pose proof (wv_take_cancel c TFinish) as H1. destruct (take_cancel c TFinish) as [c1 mc]. cbn [fst] in H1.
+    destruct (wv_fields c1 c H1) as (F1 & F2 & F3 & F4 & F5 & F6).
+    assert (Hr : running_f (pc (t_finish c)) = true) by (rewrite Ep; reflexivity).
+    destruct mc.
+    + injection E as E. eapply leaf_finish_fail; [|exact I']. apply surjective_pairing_eq. symmetry. exact E.
+    + destruct (ready c1).
+      * injection E as E. eapply leaf_finish_fail; [|exact I']. apply surjective_pairing_eq. symmetry. exact E.
+      * destruct (JK_finish_running c I Hr) as [Q|[Q|Q]].
+        -- destruct (finish_after_ready c1) as [c3 o3] eqn:Ef. injection E as <- <-.
+           eapply (leaf_finish_after_ready c c1); [exact W|exact Q|exact F1|exact F2|exact F3|exact F4|exact Ef|exact I'].
+        -- exfalso. destruct I as (_ & (_ & J2) & _). cbn in J2. rewrite Ep in J2. destruct J2; congruence.
+        -- unfold finish_after_ready in E. assert (Hc2 : cs (c1 <| hs_timer := None |>) = Closed) by (cbn; congruence).
+           rewrite Hc2 in E. injection E as E. eapply leaf_finish_fail; [|exact I']. apply surjective_pairing_eq. symmetry. exact E.
+      * injection E as E. eapply leaf_finish_fail; [|exact I']. apply surjective_pairing_eq. symmetry. exact E.
+      * injection E as E. eapply leaf_finish_fail; [|exact I']. apply surjective_pairing_eq. symmetry. exact E.
+  - (* awaiting the hello / login answers *)
+    destruct (get_call c cid) as [kk|]; [|discriminate].
+    destruct (must_cancel (t_finish c) || cfut_done (c_fut kk)); [|discriminate].
+    pose proof (wv_take_cancel c TFinish) as H1. destruct (take_cancel c TFinish) as [c1 mc]. cbn [fst] in H1.
+    pose proof (wv_call_finally c1 cid) as H2.
+    match type of E with match ?d with _ => _ end = _ => destruct d as [|e] end.
+    + destruct (check_hello_login (call_finally c1 cid) (c_responses kk)).
+      * injection E as E. eapply leaf_finish_fail; [|exact I']. apply surjective_pairing_eq. symmetry. exact E.
+      * injection E as E. eapply leaf_finish_success; [|apply surjective_pairing_eq; symmetry; exact E|exact I']. rewrite H2. exact H1.
+    + injection E as E. eapply leaf_finish_fail; [|exact I']. apply surjective_pairing_eq. symmetry. exact E.
+Qed.
